@@ -72,6 +72,27 @@ def construct(m, meta):
                         bad += 1; problems.append((name + " altered its operand", repr(r)))
                     if name in ("update", "|") and snapshot(res)[1].get(type(x)._RENDER_CLS) != (x.a, x.b):
                         bad += 1; problems.append((name + ": the namespace given does not win", repr(res), repr(x)))
+            # `|` between a namespace and a set: accepted exactly when one class descends from the other (whether or not the set's
+            # class has a namespace of its own), and then equal to the constructor's result for the more derived class
+            if r is not None:
+                x = rnd_ns()
+                if x is not None:
+                    X, R = type(x)._RENDER_CLS, r.render_cls
+                    related = issubclass(X, R) or issubclass(R, X)
+                    for name, f in (("ns | set", lambda: x | r), ("set | ns", lambda: r | x)):
+                        try:
+                            res = f(); err = None
+                        except (IncompatibleArgsNamespaceError, IncompatibleRenderArgsError) as e:
+                            res = None; err = type(e).__name__
+                        if (res is not None) != related:
+                            bad += 1; problems.append((name, "classes related:", related, "result:", err or repr(res), repr(x), repr(r)))
+            # a namespace subclass that inherits fields and association: equal to its parent's instance, hence the same hash
+            if nss:
+                x = nss[-1]
+                Sub = type("Sub" + type(x).__name__, (type(x),), {})
+                y = Sub(x.a, x.b)
+                if (x == y) and hash(x) != hash(y):
+                    bad += 1; problems.append(("equal namespaces hash differently", repr(x), repr(y)))
             if r is not None:
                 objs.append((r,snapshot(r)))
                 # eq/hash
